@@ -1100,6 +1100,34 @@ pub fn routes_behaviour(r: &mut Rng, t: &mut Trace) {
             }
         }
     }
+    // last (the router is not empty afterwards): somebody sends assets to the router; its quotes must still be the
+    // hop-by-hop composition of the pair queries, forward and reverse, for routes through the assets it now holds,
+    // and a route executed now still delivers at least its minimum
+    for info in assets.iter() {
+        let amount = mag / 300 + 5 + r.below(100) as u128;
+        let op = if is_native(info) {
+            json!({"op": "bank_send", "caller": "bob", "dest": w.router, "coins": [[id_of(info), st(amount)]]})
+        } else {
+            json!({"op": "cw20_transfer", "token": id_of(info), "caller": "bob", "dest": w.router, "amount": st(amount)})
+        };
+        t.run(&mut w, op);
+    }
+    for start in assets.iter() {
+        for hops in 2..=3usize {
+            for route in chains_from(&w, start, hops).iter().take(2) {
+                let amount = mag / 1000 + 3 + r.below(1000) as u128;
+                t.run(&mut w, json!({"op": "q_router_sim_fold", "amount": st(amount), "operations": route_ops(route)}));
+                t.run(&mut w, json!({"op": "q_router_rev_fold", "amount": st(amount), "operations": route_ops(route)}));
+            }
+        }
+    }
+    if let Some(route) = chains_from(&w, &assets[0], 2).first() {
+        let amount = mag / 1000 + 9;
+        let q = t.run(&mut w, json!({"op": "q_router_sim", "amount": st(amount), "operations": route_ops(route)}));
+        let quote = if q["ok"].as_bool().unwrap_or(false) { limbs_to_u128(&q["amount"]) } else { 0 };
+        let op = op_route(&w, "carol", route, amount, st(quote), nul());
+        t.run(&mut w, op);
+    }
 }
 
 // ---------------------------------------------------------------------------------------------
